@@ -9,7 +9,7 @@ NOQ = M("NOQ")
 # the repairs present in /repo (see known_findings.json "fixed" and DESIGN section 6)
 FIXES_NOW = ["perf", "remove", "aq", "sig", "uniq", "concat"]
 
-ALL_KINDS = ["FC", "TCONV", "BMM", "EMB", "EW2", "EW1", "EW1A", "SAMEIN0", "SAMEIN1", "SAMEIN3", "SPLIT", "CONCAT",
+ALL_KINDS = ["FC", "TCONV", "BMM", "EMB", "EW2", "EW1", "EW1A", "SAMEIN0", "SAMEIN1", "SAMEIN3", "SPLIT", "CONCAT", "CONCAT3",
              "FIXSL", "FIXT", "UNSUP"]
 
 MODES_W_RICH = [NOQ, M("SRQ", "a8a", "w8c"), M("SRQ", "a16", "w8c"), M("SRQ", "a8s", "w8t"), M("DRQ", "-", "w8c"),
